@@ -1167,3 +1167,106 @@ func ruleArrayMax(c *Ctx) {
 	c.Floor("ReadArray sites", n, 15)
 	c.Floor("ReadArray sites with an explicit maximum", nb, 9)
 }
+
+// ---------------------------------------------------------------------------
+// decoded-loop (C17): a loop whose trip count is an integer the decoder has just read (`for range r.ReadVarUint()`)
+// runs as long as the *input says*: once the reader has failed every read returns at once, so a count of 2^64-1 in
+// nine bytes of input keeps the loop appending empty elements until memory is exhausted. Such a loop is entered only
+// behind an ordering comparison of the count with a limit, or tests the reader's error inside its body and leaves.
+func ruleDecodedLoop(c *Ctx) {
+	readers := map[string]bool{"pkg/io.(*BinReader).ReadVarUint": true, "pkg/io.(*BinReader).ReadU64LE": true, "pkg/io.(*BinReader).ReadU32LE": true, "pkg/io.(*BinReader).ReadU16LE": true}
+	n := 0
+	for _, fd := range c.P.AllFuncDecls() {
+		rel := pkgRel(fd.Pkg.Types)
+		if fd.Decl.Body == nil || !strings.HasPrefix(rel, "pkg/") || strings.HasPrefix(rel, "pkg/rpcclient") || rel == "pkg/io" {
+			continue
+		}
+		f := c.P.NewFuncCFG(fd)
+		if f == nil {
+			continue
+		}
+		hasReader := false
+		for r := range readers {
+			if len(f.CallSites(r)) > 0 {
+				hasReader = true
+			}
+		}
+		if !hasReader {
+			continue
+		}
+		info := fd.Pkg.TypesInfo
+		fromReader := func(e ast.Expr) bool {
+			for m := range f.DirectMentions(e) {
+				if readers[m] || (strings.HasPrefix(m, "local<-") && readers[strings.TrimPrefix(m, "local<-")]) {
+					return true
+				}
+			}
+			return false
+		}
+		ast.Inspect(fd.Decl.Body, func(x ast.Node) bool {
+			var bound ast.Expr
+			var body *ast.BlockStmt
+			switch l := x.(type) {
+			case *ast.RangeStmt:
+				if t := info.TypeOf(l.X); t != nil {
+					if b, ok := t.Underlying().(*types.Basic); ok && b.Info()&types.IsInteger != 0 {
+						bound, body = l.X, l.Body
+					}
+				}
+			case *ast.ForStmt:
+				if be, ok := l.Cond.(*ast.BinaryExpr); ok && (be.Op == token.LSS || be.Op == token.LEQ) {
+					bound, body = be.Y, l.Body
+				}
+			}
+			if bound == nil || !fromReader(bound) {
+				return true
+			}
+			n++
+			key := fmt.Sprintf("decoded-loop.%s#%d", FuncKey(fd.Obj), n)
+			// (b) the body tests the reader's error and leaves
+			errExit := false
+			ast.Inspect(body, func(y ast.Node) bool {
+				if is, ok := y.(*ast.IfStmt); ok && leavesLoop(is.Body) && f.DirectMentions(is.Cond)["pkg/io#Err"] {
+					errExit = true
+				}
+				return true
+			})
+			// (a) the count is compared with a limit before the loop
+			limited := false
+			var bobj types.Object
+			if id, ok := ast.Unparen(bound).(*ast.Ident); ok {
+				bobj = info.ObjectOf(id)
+			}
+			if bobj != nil {
+				ast.Inspect(fd.Decl.Body, func(y ast.Node) bool {
+					be, ok := y.(*ast.BinaryExpr)
+					if !ok || be.Pos() >= x.Pos() {
+						return true
+					}
+					switch be.Op {
+					case token.LSS, token.LEQ, token.GTR, token.GEQ:
+						for _, side := range []ast.Expr{be.X, be.Y} {
+							ast.Inspect(side, func(z ast.Node) bool {
+								if id, ok := z.(*ast.Ident); ok && info.ObjectOf(id) == bobj {
+									limited = true
+								}
+								return true
+							})
+						}
+					}
+					return true
+				})
+			}
+			switch {
+			case limited:
+				c.OK(key, c.P.Pos(x.Pos()), "the decoded count is compared with a limit before the loop")
+			case errExit:
+				c.OK(key, c.P.Pos(x.Pos()), "the loop leaves as soon as the reader has failed")
+			default:
+				c.Fail(key, c.P.Pos(x.Pos()), fmt.Sprintf("%s loops as many times as a count read from the input says, without a limit on the count and without looking at the reader's error inside the loop: nine bytes announcing 2^64-1 elements keep it appending until memory runs out", FuncKey(fd.Obj)))
+			}
+			return true
+		})
+	}
+	c.Floor("loops bounded by a decoded count", n, 3)
+}
